@@ -94,6 +94,10 @@ def distinct_and_cover(minor, major, res):
 
 
 def run(case):
+    global _ENV
+    if case['mode'] == 'catalog' and _ENV is None:
+        from vf import catgen
+        _ENV = catgen.Env()          # installs the asdf double before the catalog module is imported
     from abacusnbody.data import compaso_halo_catalog as chc
     codes = np.arange(NCODE, dtype=np.uint16)
     probs = []
@@ -146,14 +150,15 @@ def run(case):
             sel = codes[case['lo']:case['hi']]
             res = [chc._unpack_euler16(sel[i:i + 1].copy()) for i in range(len(sel))]
             mn = np.concatenate([r[0] for r in res]); md = np.concatenate([r[1] for r in res]); mj = np.concatenate([r[2] for r in res])
-        for sig, msg in geometry(mn, md, mj, 1e-12, sel):
+        tol = max(1e-12, 8 * float(np.finfo(np.asarray(mj).dtype).eps)) if np.asarray(mj).dtype.kind == 'f' else 1e-12
+        for sig, msg in geometry(mn, md, mj, tol, sel):
             probs.append(dict(sig=f'euler16:{sig}', msg=f'{mode}: {msg}'))
         # batching must not matter: compare with the single batch decode of the same codes
         bmn, bmd, bmj = chc._unpack_euler16(sel.copy())
         if not (np.array_equal(bmn, mn) and np.array_equal(bmd, md) and np.array_equal(bmj, mj)):
             probs.append(dict(sig='euler16:batch-dependence', msg=f'{mode}: decode differs from the one-batch decode'))
         if mode != 'single':
-            ps, nmaj, worst = distinct_and_cover(mn, mj, 1e-9)
+            ps, nmaj, worst = distinct_and_cover(np.asarray(mn, dtype=np.float64), np.asarray(mj, dtype=np.float64), max(1e-9, tol * 10))
             extra = dict(distinct_major_axes=nmaj)
             for sig, msg in ps:
                 probs.append(dict(sig=f'euler16:{sig}', msg=f'{mode}: {msg}'))
@@ -166,9 +171,6 @@ def run(case):
         return r
     # through the catalog loader
     from vf import catgen
-    global _ENV
-    if _ENV is None:
-        _ENV = catgen.Env()
     cat = catgen.Catalog([[]])
     rows = np.arange(NCODE)
     raw = catgen.fill_values(catgen.raw_layout(), rows)
